@@ -23,7 +23,8 @@ TR = T([0, 0], [1, 0], [0, 1])
 TSL = T([0.3, 0.1], [1.7, 0.6], [-0.2, 1.3])
 TCW = T([0, 0], [0, 1], [1, 0])
 LSH = Poly([[0, 0], [2, 0], [2, 1], [1, 1], [1, 2], [0, 2]])
-HOLE = Poly([[0, 0], [3, 0], [3, 3], [0, 3]], holes=[[[1, 1], [2, 1], [2, 2], [1, 2]]])
+# square with a square hole; kept away from the origin (a sampler that leaves rows at (0,0) must not be excused)
+HOLE = Poly([[0.5, 0.25], [3.5, 0.25], [3.5, 3.25], [0.5, 3.25]], holes=[[[1.5, 1.25], [2.5, 1.25], [2.5, 2.25], [1.5, 2.25]]])
 # parameter dependent
 C_MOVE = C([aff(0, t=1), 0], 0.5)
 C_GROW = C([0, 0], aff(0.5, t=0.5))
@@ -63,6 +64,7 @@ IN_S = S([0.1, 0, 0], 0.4)
 # parameter intervals used as second product factors
 IT = I(0, 1, var="t")
 IT2 = I(0.5, 1, var="t")
+I_STEEP = I(0, aff(0.2, t=1.8))        # length 0.2 .. 2.0: a strongly t-dependent first factor
 
 
 def _firsts2(tier):
@@ -80,9 +82,9 @@ def _seconds2(tier):
 
 
 def leaves2(tier):
-    out = [SQ, SQ_CW, SLP, P_R60, C1, C2, TR, TSL, LSH, C_MOVE, C_GROW, SQ_MOVE, SQ_GROW, TR_GROW]
+    out = [SQ, SQ_CW, SLP, P_R60, C1, C2, TR, TSL, LSH, HOLE, C_MOVE, C_GROW, SQ_MOVE, SQ_GROW, TR_GROW]
     if tier == "thorough":
-        out += [SLP_CW, THIN, RECT, C3, TCW, HOLE, C_BOTH, SLP_T, TR_MOVE, C_ST]
+        out += [SLP_CW, THIN, RECT, C3, TCW, C_BOTH, SLP_T, TR_MOVE, C_ST]
     return out
 
 
@@ -109,7 +111,7 @@ def booleans2(tier):
             Cut(LSH, G_C), U(TR, G_P)]
     if tier == "thorough":
         out += [Cut(SLP, IN_C), U(SLP, FAR_P, disjoint=True), Cut(C_GROW, IN_P), N(SQ_MOVE, C1),
-                Cut(HOLE, C([1.5, 0.4], 0.7)), U(LSH, C([2, 2], 0.8)), N(LSH, C([1, 1], 0.9)),
+                Cut(HOLE, C([2.0, 0.65], 0.7)), U(LSH, C([2, 2], 0.8)), N(LSH, C([1, 1], 0.9)),
                 Cut(SQ_CW, IN_C, contained=True), U(SQ, SQ_MOVE2), N(SQ, SQ_MOVE2)]
     return out
 
@@ -171,7 +173,8 @@ def transforms1(tier):
 def products(tier):
     out = [X(I01, IT), X(C1, IT), X(I_GROW, IT), X(C_GROW, IT), X(C_MOVE, IT), X(SQ_MOVE, IT2),
            X(I(0, 1, var="y"), I01), X(SQ, I(0, 2, var="y")), X(Cut(SQ, G_CMOVE, contained=True), IT),
-           X(I_GROW, I(0, 1, var="s"))]
+           X(I_GROW, I(0, 1, var="s")), X(I_STEEP, IT),
+           X(I_STEEP, X(I(0, 1, var="s"), IT))]      # first factor depends on only ONE of the second factor's variables
     if tier == "thorough":
         out += [X(TR_GROW, IT), X(S_GROW, IT), X(U(SQ_MOVE, G_C), IT), X(Tr(SQ, [aff(0, t=1), 0]), IT),
                 X(Rot(SQ, aff(0, t=1)), IT), X(X(I(0, 1, var="y"), I01), IT), X(C_ST, X(I(0, 1, var="s"), IT)),
